@@ -175,6 +175,48 @@ def run(ctx):
                     ctx.ev()
                     ck.root = ("*", sa, sb)
                     ck.bad("raised-metamorphic", ck.root, {"error": repr(e)[:300]})
+        # a table unit whose symbol reads exactly like the unit string of a derived quantity of *another* dimension make-up
+        # ('m2' the area unit vs m*m, 'm/s' the velocity unit vs m / s): equal strings are not equal quantities - the
+        # quotient keeps one exponent per quantity type (area^1 length^-2), in every container
+        if ctx.shard == 0:
+            from ..models import grammar
+
+            atoms = set(db.unit_to_unit_info)
+            rows = []
+            for sym, info in sorted(db.unit_to_unit_info.items()):
+                p = grammar.parse_symbol(sym, atoms, info.name)
+                if not p or p == "ambiguous" or any(pre != 1.0 for pre, _a, _e in p) or (len(p) == 1 and p[0][2] == 1):
+                    continue
+                if sym in T.aff and T.aff[sym].exact and T.aff[sym].off == 0.0 and all(a in T.aff and T.aff[a].off == 0.0 and db.GetDefaultCategory(a) for _pre, a, _e in p) and db.GetDefaultCategory(sym):
+                    rows.append((sym, p))
+            rr = ctx.rng("strings")
+            rr.shuffle(rows)
+            done = 0
+            for sym, parts in rows[: 60 if ctx.tier == "quick" else 600]:
+                num = den = None
+                for _pre, atom, e in parts:
+                    for _ in range(abs(e)):
+                        leaf = ("leaf", db.GetDefaultCategory(atom), [2.0, 3.0, 0.5], atom)
+                        if e > 0:
+                            num = leaf if num is None else ("*", num, leaf)
+                        else:
+                            den = leaf if den is None else ("*", den, leaf)
+                if num is None:
+                    continue
+                derived = num if den is None else ("/", num, den)
+                named = ("leaf", db.GetDefaultCategory(sym), [6.0, 1.5, 4.0], sym)
+                for k, (cls, container) in enumerate((("scalar", "list"), ("array", "list"), ("array", "nd"), ("array", "tuple"))):
+                    for spec in (("/", named, derived), ("/", derived, named), ("//", named, derived), ("*", named, derived)):
+                        ck.root, ck.cls = spec, "%s/%s" % (cls, container)
+                        try:
+                            programs.evaluate(T, spec, cls, container, nontrivial, 1 if cls == "scalar" else 3)
+                        except programs.Degenerate:
+                            continue
+                        except programs.EvalError as e:
+                            ctx.ev()
+                            ck.bad("raised", e.spec, {"error": repr(e.exc)[:300]})
+                done += 1
+            ctx.count("named unit against the derived quantity with the same unit string", done)
         # Quantity ** n equals n-fold product
         for _ in range(200):
             spec = B.tree(r, 2, 1)
